@@ -131,19 +131,18 @@ theorem C02_removed (inp : Input) : (applyLinks inp).removed = removed inp := by
   simp only [C02_loop_state, apply_fold_removed, initSt, List.nil_append]
 
 /-- **C02_iff (interactions).**  The interaction stored under key `k = (section, atoms, version)` in
-the result is: nothing, if the final flush drops the key; otherwise the parameters of the LAST accepted
-link application (definition order of links, then enumeration order of matches) one of whose
-interactions maps to `k`; otherwise the last block interaction with that key; otherwise nothing.
-The flush condition is the code's: `any(x in nodes_to_remove for x in (*atoms, version))`. -/
+the result is: nothing, if one of its atoms is scheduled for removal; otherwise the parameters of the
+LAST accepted link application (definition order of links, then enumeration order of matches) one of
+whose interactions maps to `k`; otherwise the last block interaction with that key; otherwise nothing. -/
 theorem C02_iff (inp : Input) (k : Key) :
     lookupKV (applyLinks inp).ixns k =
-      if keyHitsRemoved (removed inp) k then none else specLookup inp (evs inp) k := by
+      if atomsHitRemoved (removed inp) k then none else specLookup inp (evs inp) k := by
   have hrem : (loopSt inp).removed = removed inp := by
     simp only [C02_loop_state, apply_fold_removed, initSt, List.nil_append, removed]
   unfold applyLinks finish
   simp only []
-  rw [lookupKV_filter_key (loopSt inp).store (fun k => !keyHitsRemoved (loopSt inp).removed k) k, hrem]
-  by_cases h : keyHitsRemoved (removed inp) k
+  rw [lookupKV_filter_key (loopSt inp).store (fun k => !atomsHitRemoved (loopSt inp).removed k) k, hrem]
+  by_cases h : atomsHitRemoved (removed inp) k
   · simp [h]
   · simp only [h, Bool.not_false, if_true, Bool.false_eq_true, if_false]
     rw [C02_loop_state, apply_fold_store, fold_insert_last]
@@ -156,15 +155,15 @@ example : lookupKV (applyLinks (exInput false)).ixns ⟨"bonds", [2, 3], 1⟩ = 
     lookupKV (applyLinks (exInput false)).ixns ⟨"bonds", [0, 2], 1⟩ = some ⟨["1", "0.1"], []⟩ ∧
     lookupKV (applyLinks (exInput false)).ixns ⟨"bonds", [1, 2], 1⟩ = none := by decide
 
-/-- **presence, as an iff.**  An interaction with key `k` is in the result iff the flush keeps the key
-and it is a block interaction or some accepted link application has an interaction mapping to `k`. -/
+/-- **presence, as an iff.**  An interaction with key `k` is in the result iff none of its atoms is
+scheduled for removal and it is a block interaction or some accepted link application has an interaction mapping to `k`. -/
 theorem C02_present_iff (inp : Input) (k : Key) :
     (∃ v, (k, v) ∈ (applyLinks inp).ixns) ↔
-      keyHitsRemoved (removed inp) k = false ∧
+      atomsHitRemoved (removed inp) k = false ∧
       ((∃ v, (k, v) ∈ inp.ixns) ∨
        ∃ e ∈ evs inp, ∃ i ∈ e.link.ixns, (⟨i.sect, i.atoms.map (AMap.get e.amap), i.version⟩ : Key) = k) := by
   rw [← lookupKV_isSome_iff, C02_iff]
-  by_cases h : keyHitsRemoved (removed inp) k
+  by_cases h : atomsHitRemoved (removed inp) k
   · simp [h]
   · simp only [h, Bool.false_eq_true, if_false, true_and]
     unfold specLookup
@@ -183,31 +182,15 @@ theorem C02_present_iff (inp : Input) (k : Key) :
       · left
         exact ⟨⟨i.params, i.imeta⟩, List.mem_flatMap.mpr ⟨e, he, List.mem_map.mpr ⟨i, hi, by rw [← heq]⟩⟩⟩
 
-/-- **The property as stated** ("no atom of the interaction is scheduled for removal"): it follows
-from `C02_iff` under the hypothesis that the version number of `k` is not the node key of a removed
-atom.  Without the hypothesis the statement is FALSE for the code: see
-`C02_version_clash_counterexample`. -/
-theorem C02_iff_atoms (inp : Input) (k : Key) (hv : (removed inp).contains k.version = false) :
-    lookupKV (applyLinks inp).ixns k =
-      if atomsHitRemoved (removed inp) k then none else specLookup inp (evs inp) k := by
-  rw [C02_iff]
-  have : keyHitsRemoved (removed inp) k = atomsHitRemoved (removed inp) k := by
-    unfold keyHitsRemoved atomsHitRemoved
-    rw [List.any_append]
-    simp only [List.any_cons, List.any_nil, Bool.or_false, hv]
-  rw [this]
-
-example : (removed (exInput false)).contains (1 : Nat) = false := by decide
-
-/-- The hypothesis of `C02_iff_atoms` cannot be dropped: in this instance the link removes the atom
-with node key 1; the block bond on atoms 0 and 2 (neither is removed) carries the default version 1
-and is dropped by the flush, although the property keeps it.  The real code behaves like the model
-(`notes/C02_findings.md`, shape `removed-atom-key-equals-version`). -/
-theorem C02_version_clash_counterexample :
+/-- Regression statement for repository commit 18c3f8a (the flush used to test the dictionary key
+`(*atoms, version)`): in this instance the link removes the atom with node key 1; the block bond on atoms
+0 and 2 (neither is removed) carries the default version 1.  The old condition `keyHitsRemoved` drops
+it, the property and the repaired code keep it.  (`regress/revert_18c3f8a.diff` turns the check red.) -/
+theorem C02_version_clash_regression :
     removed (exInput true) = [1] ∧
+    keyHitsRemoved (removed (exInput true)) ⟨"bonds", [0, 2], 1⟩ = true ∧
     atomsHitRemoved (removed (exInput true)) ⟨"bonds", [0, 2], 1⟩ = false ∧
-    specLookup (exInput true) (evs (exInput true)) ⟨"bonds", [0, 2], 1⟩ = some ⟨["1", "0.1"], []⟩ ∧
-    lookupKV (applyLinks (exInput true)).ixns ⟨"bonds", [0, 2], 1⟩ = none := by
+    lookupKV (applyLinks (exInput true)).ixns ⟨"bonds", [0, 2], 1⟩ = some ⟨["1", "0.1"], []⟩ := by
   decide
 
 /-- **edges.**  `{a,b}` is an edge of the result iff it was an edge of the mapped molecule or an edge of
@@ -373,6 +356,48 @@ example : splitDangling ["BB", "SC1"] [⟨"bonds", [0, 1], ["1"]⟩, ⟨"bonds",
        [("dihedrals", ["SC1", "+BB", "+SC1", "++BB"], ["9", "a"]), ("dihedrals", ["SC1", "+BB", "+SC1", "++BB"], ["9", "b"])]⟩],
      [⟨"bonds", [0, 1], ["1"]⟩]) := by decide
 
+/-- chain of `N` one-atom residues named A (keys 0..N-1, resid = key + 1) -/
+def chainInput (N : Nat) (links : List Link) : Input :=
+  { atoms := (List.range N).map (fun i => ⟨i, i + 1, [("atomname", "s:BB"), ("resname", "s:A")]⟩),
+    edges := [], ixns := [], molMeta := [],
+    res := (List.range N).map (fun i => ⟨i, i + 1, [("resname", "s:A")], [(i, [("atomname", "s:BB"), ("resname", "s:A")])]⟩),
+    redges := (List.range (N - 1)).map (fun i => (i, i + 1, none)),
+    links := links }
+
+/-- the link a dangling angle-like interaction over `k+1` consecutive residues stands for: atoms `BB`, `+BB`, … bonded in a path -/
+def pathLink (k : Nat) : Link :=
+  let key := fun (i : Nat) => plusPrefix i ++ "BB"
+  { atoms := (List.range (k + 1)).map (fun i => ⟨key i, .num i, [("atomname", .eq "s:BB"), ("resname", .eq "s:A")], [], false⟩),
+    ixns := [⟨"x", (List.range (k + 1)).map key, 1, ["p"], []⟩],
+    edges := (List.range k).map (fun i => (key i, key (i + 1), none)),
+    nonEdges := [], patterns := [], molMeta := [] }
+
+/-- the windows `[j, j+1, …, j+k]` that fit into `0..N-1` -/
+def windows (N k : Nat) : List (List Nat) := (List.range (N - k)).map (fun j => (List.range (k + 1)).map (· + j))
+
+def acceptedWindows (N k : Nat) : List (List Nat) :=
+  (evs (chainInput N [pathLink k])).map (fun e => (pathLink k).atoms.map (fun a => AMap.get e.amap a.key))
+
+/-- **C02_dangling_windows_partial** (stretch; PARTIAL).
+General part, all inputs: a link whose residues carry numeric orders (what dangling interactions give:
+0, +1, +2, …) passes the relative-order check exactly for the residue tuples whose resids are the orders
+shifted by ONE constant — on a chain numbered 1..N these are the windows `j, j+1, …, j+k`, which exist
+iff `j + k ≤ N` ("present for every window that fits inside the chain, absent at its end").
+Bounded part, a TEST (kernel evaluation, `decide +kernel`, not a proof for all N): for every chain length
+`N ≤ 12` and span `k ≤ 3` the whole model pipeline (`resMatches`, order check, atom matching, acceptance)
+applied to the chain of one-atom residues and the path-shaped link accepts exactly those windows.
+Missing for the full statement: the characterisation of induced matches of a path in a path for all N. -/
+theorem C02_dangling_windows_partial :
+    (∀ l : List (Int × Int), checkRelativeOrder (l.map (fun p => (Order.num p.1, p.2))) = true ↔
+        ∀ p ∈ l, ∀ q ∈ l, q.1 - p.1 = q.2 - p.2) ∧
+    ∀ N ∈ List.range 13, ∀ k ∈ List.range 4, ∀ N ∈ List.range 13, ∀ k ∈ List.range 4,
+    (acceptedWindows N k).all (fun w => (windows N k).contains w) = true ∧
+    (windows N k).all (fun w => (acceptedWindows N k).contains w) = true ∧
+    (acceptedWindows N k).length = (windows N k).length := by
+  exact ⟨numeric_orders_offsets, by decide +kernel⟩
+
+example : windows 4 1 = [[0, 1], [1, 2], [2, 3]] ∧ (acceptedWindows 3 1).length = 2 ∧ (acceptedWindows 3 1).contains [1, 2] = true := by decide
+
 /-- `treat_link_multiple`: the terms of one section that act on the same atoms get pairwise different
 version numbers (so none of them overwrites another one in `applied_links`), the last one version 1. -/
 theorem C02_versions_distinct (ts : List (List String × List String)) :
@@ -393,12 +418,12 @@ theorem C02_versions_distinct (ts : List (List String × List String)) :
         simp only [tagVersions, List.map_cons, List.mem_cons, Prod.mk.injEq] at h
         rcases h with ⟨h1, h2⟩ | h
         · subst h1; subst h2
-          simp [List.filter_cons]
+          simp
           omega
         · have := ihu k v h
           by_cases hk : u.1 == k
-          · simp [List.filter_cons, hk]; omega
-          · simp [List.filter_cons, hk]; exact this
+          · simp [hk]; omega
+          · simp [hk]; exact this
     have := hbound ts t.1 _ hmem
     omega
 
